@@ -179,7 +179,10 @@ def evalComparison (F : FloatOps) (op : CmpOp) (l r : ConstantValue) : Except Ex
     .ok (.bool (match op with
       | .eq => F.eq a b | .ne => !F.eq a b | .lt => F.lt a b | .le => F.le a b | .gt => F.lt b a | .ge => F.le b a))
   | .cstring a, .cstring b | .qstring a, .qstring b => .ok (.bool (cmpBy op (· == ·) strLt a b))
-  | .nullPointer, .nullPointer => .ok (.bool (cmpBy op (fun _ _ => true) (fun _ _ => false) () ()))
+  | .nullPointer, .nullPointer =>
+    -- only `==` / `!=` (repair 9ae7b5c): pointers are not ordered
+    if op = .eq ∨ op = .ne then .ok (.bool (cmpBy op (fun _ _ => true) (fun _ _ => false) () ()))
+    else .error (.opUnsupported op.symbol l.typeDesc)
   | _, _ => .error (.opIncompatible op.symbol l.typeDesc r.typeDesc)
 
 end QV.Model
